@@ -297,7 +297,7 @@ static void purity_monitors(Exec& ex, const Op& op) {
     violation("global-state", SH->cur_fn, "process locale is '%s' after the call, was '%s'", loc ? loc : "(null)", g_locale_all.c_str());
     apply_locale(g_locale_cfg);   // blame the call once and put the configuration back for the rest of the run
   }
-  if (uselocale((locale_t)0) != LC_GLOBAL_LOCALE) {
+  if (!t_task->caller_loc && uselocale((locale_t)0) != LC_GLOBAL_LOCALE) {
     violation("global-state", SH->cur_fn, "the calling thread is left with a thread-specific locale after the call");
     uselocale(LC_GLOBAL_LOCALE);
   }
@@ -465,10 +465,13 @@ void Exec::run_op(const Op& op) {
     case OK_PARSE: {
       struct compoundData* cd = CompoundParser(op.snull ? nullptr : op.s.c_str(), ep);
       failed_sentinel = !cd;
+      if (!cd && t_task->caller_loc && !op_fault_fired()) SH->probes[PR_PARSE_FAIL_UNDER_TLOC]++;
       if (cd) {
         if (!op_fault_fired()) dg_compound(g, cd);
         if (op.s.find('(') != std::string::npos) SH->probes[PR_NESTED_FORMULA]++;
-        if (g_locale_cfg == LOC_XX && op.s.find('.') != std::string::npos) SH->probes[PR_FRACTION_PARSED_IN_COMMA_LOCALE]++;
+        bool comma = t_task->caller_loc ? t_task->caller_loc_kind == TLOC_XX || (t_task->caller_loc_kind == TLOC_DUP && g_locale_cfg == LOC_XX) : g_locale_cfg == LOC_XX;
+        if (comma && op.s.find('.') != std::string::npos) SH->probes[PR_FRACTION_PARSED_IN_COMMA_LOCALE]++;
+        if (t_task->caller_loc) SH->probes[PR_PARSE_UNDER_TLOC]++;
         if (op.selfc && !op_fault_fired()) FreeCompoundData(cd);
         else { nh.type = HT_COMPOUND; nh.p = cd; }
       }
@@ -690,6 +693,7 @@ void Exec::run_op(const Op& op) {
       vf.open_errno = op.fs.open_errno; vf.eio_at = op.fs.eio_at; vf.trunc_at = op.fs.trunc_at; vf.chunk = op.fs.chunk; vf.unseekable = op.fs.unseekable;
       if (op.fs.mut != FM_NONE) SH->faults[FK_CORRUPT]++;
       vfs_add(vf);
+      if (t_task->caller_loc) SH->probes[PR_READFILE_UNDER_TLOC]++;
       long len = (long)vf.content.size();
       bool truncated = vf.trunc_at >= 0 && vf.trunc_at < len;
       bool eio_hits = vf.eio_at >= 0 && vf.eio_at <= (truncated ? vf.trunc_at : len);   // a read at end-of-data position also errors
@@ -936,6 +940,9 @@ void Exec::run_op(const Op& op) {
     op_end();
   }
   (void)touched_modified;
+  // a caller that runs under its own uselocale() object: the library must neither consume, modify nor release it
+  // (memory safety, every engine) and must leave the thread on it (C16 only)
+  if (t_task->caller_loc) caller_locale_check(hooks.purity_monitors, fname);
   if (hooks.purity_monitors) purity_monitors(*this, op);
 }
 
